@@ -21,7 +21,8 @@ def model_check(ctx):
     out = r["out"]
     import re
     never = []
-    for act in ("Pick01", "Pick02", "Before", "Initial", "FilterBefore", "Upstream", "FilterAfter", "Log"):
+    for act in ("Pick01", "Pick02", "Before", "Initial", "FilterBefore", "Upstream", "FilterAfter", "Log",
+                "Boot", "Ask", "Repeat", "Reconfigure", "Finish"):
         m = re.search(r"<%s line \d+, col \d+ to line \d+, col \d+ of module DnsPipeline>: (\d+):(\d+)" % act, out)
         if not m or int(m.group(2)) == 0:
             never.append(act)
